@@ -431,6 +431,9 @@ func c53ParseScore(name string) (sp c53ScoreSpec) {
 func c53ScoreSpecs(thorough bool) (out []c53ScoreSpec) {
 	for _, fin := range []bool{false, true} {
 		for _, count := range c53ScoreCounts {
+			if !thorough && !fin && (count == params.SyncCommitteeSupermajority-1 || count == params.SyncCommitteeSupermajority) {
+				continue // the 2/3 boundary only matters together with a finalized header
+			}
 			for _, other := range []bool{false, true} {
 				out = append(out, c53ScoreSpec{fin, count, other, 1})
 			}
@@ -672,6 +675,21 @@ type c53Op struct {
 	next string // committee supplied with an update ("" = nil)
 }
 
+// c53AlwaysRejected: deliveries whose successor state is by the property always the state itself.
+func c53AlwaysRejected(w *c53World, o c53Op) bool {
+	switch o.kind {
+	case "ins":
+		return w.upd[o.id].Forged
+	case "addc":
+		return strings.HasPrefix(o.id, "F")
+	case "cp":
+		return !w.cps[o.id].validateOK()
+	case "fix":
+		return o.id == ""
+	}
+	return false
+}
+
 func c53Alphabet(w *c53World, lazyVerify bool, full bool, scores bool) []c53Op {
 	var ops []c53Op
 	add := func(o c53Op) { ops = append(ops, o) }
@@ -696,11 +714,15 @@ func c53Alphabet(w *c53World, lazyVerify bool, full bool, scores bool) []c53Op {
 		insert(fmt.Sprintf("g%d", p), "")
 		insert(fmt.Sprintf("g+%d", p), fmt.Sprintf("G%d", p+1))
 	}
-	insert("a+1", "A2")
-	insert("a1", "A2")
 	insert("a2", "A3")
-	insert("afin1", "A2")
-	insert("gfin1", "G2")
+	if full || !scores {
+		// (400/420-signer and finalized-400 variants; in the quick eager runs the score product at period 1 already
+		// contains non-finalized 300/512 and finalized 300/341/342/512 updates for both next committees)
+		insert("a+1", "A2")
+		insert("a1", "A2")
+		insert("afin1", "A2")
+		insert("gfin1", "G2")
+	}
 	add(c53Op{name: "fix(2,A)", kind: "fix", p: 2, id: "A2"})
 	add(c53Op{name: "addCommittee(2,A)", kind: "addc", p: 2, id: "A2"})
 	add(c53Op{name: "checkpoint(cpA2)", kind: "cp", id: "cpA2"})
@@ -769,6 +791,8 @@ type c53Sys struct {
 	final bool   // the next Apply is the transition being explored (mc.Explore calls Enabled right before it, and
 	// before every op when replaying a counterexample); prefix replays skip the expensive observations
 	last  string // outcome class of the last applied op
+	batch []c53Op // deliveries that must be rejected in every state (eager runs: offered after every transition)
+	nBatch int64
 	acc   int64  // headers accepted / rejected in the last observation
 	rej   int64
 }
@@ -793,13 +817,10 @@ func c53ErrClass(err error) string {
 	return "err:" + err.Error()
 }
 
-func (s *c53Sys) Apply(opi int) error {
-	op := s.ops[opi]
+// exec runs one operation on the real chain and on the model and compares result class and model discipline.
+func (s *c53Sys) exec(op c53Op, final bool) error {
 	w := s.w
 	before := s.m.String()
-	s.acc, s.rej = 0, 0
-	final := s.final
-	s.final = false
 	var (
 		err      error // result of the real code
 		expectOK bool
@@ -857,6 +878,27 @@ func (s *c53Sys) Apply(opi int) error {
 		}
 		expectOK = s.m.insertUpdate(w, u, op.next)
 		forged = u.Forged
+	case "batch":
+		// every delivery that must be rejected in every state (forged updates, attacker committees, invalid
+		// checkpoints) is offered in turn: each must fail and leave ranges and change counter alone; the caller then
+		// compares database, ranges and caches with the model. Same checks as one self-loop operation per delivery,
+		// but the prefix is replayed once per state instead of once per delivery.
+		if !final {
+			return nil
+		}
+		for _, b := range s.batch {
+			c := s.chain
+			fr, cr, ur, cc := c.fixedCommitteeRoots.periods, c.committees.periods, c.updates.periods, c.changeCounter
+			if e := s.exec(b, true); e != nil {
+				return e
+			}
+			if fr != c.fixedCommitteeRoots.periods || cr != c.committees.periods || ur != c.updates.periods || cc != c.changeCounter {
+				return fmt.Errorf("rejected delivery %s changed the chain (ranges / change counter)", b.name)
+			}
+			s.nBatch++
+		}
+		s.last = "rejected-deliveries"
+		return nil
 	case "verify":
 		if !final {
 			s.chain.VerifySignedHeader(s.w.heads[op.p][0].sh)
@@ -866,7 +908,7 @@ func (s *c53Sys) Apply(opi int) error {
 			return fmt.Errorf("%s: %v", op.name, e)
 		}
 		s.last = "verify"
-		return s.check(op.name)
+		return nil
 	}
 	s.last = op.kind + ":" + c53ErrClass(err)
 	if forged {
@@ -884,6 +926,23 @@ func (s *c53Sys) Apply(opi int) error {
 	if err != nil && op.kind != "cp" && s.m.String() != before {
 		// (a CheckpointInit that fails after validation resets the chain: documented in the code, safe)
 		return fmt.Errorf("harness: model changed on a failing op %s", op.name)
+	}
+	return nil
+}
+
+func (s *c53Sys) Apply(opi int) error {
+	op := s.ops[opi]
+	s.acc, s.rej, s.nBatch = 0, 0, 0
+	final := s.final
+	s.final = false
+	if e := s.exec(op, final); e != nil {
+		return e
+	}
+	if op.kind == "verify" {
+		if final {
+			return s.check(op.name)
+		}
+		return nil
 	}
 	if !final {
 		// prefix replay: this transition was fully checked when it was first explored; only keep the
@@ -1110,7 +1169,32 @@ func (s *c53Sys) Key() string {
 
 func c53Explore(r *mc.R, name string, lazy, full bool, depth int, init ...string) {
 	w := c53GetWorld()
-	ops := c53Alphabet(w, lazy, full, !lazy || full)
+	ops := c53Alphabet(w, lazy, full, !lazy)
+	var batch []c53Op
+	if !lazy {
+		// eager runs: always-rejected deliveries are offered after every transition instead of being explored as
+		// operations with a self-loop (in the lazy run they stay operations: they touch the committee cache)
+		var keep []c53Op
+		for _, o := range ops {
+			if c53AlwaysRejected(w, o) {
+				batch = append(batch, o)
+			} else {
+				keep = append(keep, o)
+			}
+		}
+		ops = append(keep, c53Op{name: "offer-all-always-rejected-deliveries", kind: "batch"})
+		r.Bound(name+".rejected_deliveries_per_state", len(batch))
+	} else {
+		// lazy run: of the always-rejected deliveries only the attacker-signed updates stay (they reach signature
+		// verification and so touch the committee cache); all others are offered in every state by the eager runs
+		var keep []c53Op
+		for _, o := range ops {
+			if !c53AlwaysRejected(w, o) || strings.HasPrefix(o.id, "fsig") {
+				keep = append(keep, o)
+			}
+		}
+		ops = keep
+	}
 	names := make([]string, len(ops))
 	for i, o := range ops {
 		names[i] = o.name
@@ -1138,6 +1222,7 @@ func c53Explore(r *mc.R, name string, lazy, full bool, depth int, init ...string
 		Depth: depth,
 		New: func() mc.Sys {
 			s := c53NewSys(r, w, ops, lazy)
+			s.batch = batch
 			for _, o := range initOps {
 				s.final = true // the initial prefix is fully checked as well
 				if err := s.Apply(o); err != nil {
@@ -1151,6 +1236,10 @@ func c53Explore(r *mc.R, name string, lazy, full bool, depth int, init ...string
 			s := x.(*c53Sys)
 			if s.last != "" {
 				r.Outcome(s.last)
+			}
+			if s.nBatch > 0 {
+				r.OutcomeN("always-rejected-delivery:rejected", s.nBatch)
+				r.Eval(s.nBatch)
 			}
 			if s.acc+s.rej > 0 {
 				r.OutcomeN("header-accepted", s.acc)
